@@ -160,8 +160,10 @@ func readerLayout(c *Ctx, fn *ssa.Function, typeQ string) map[string]map[string]
 	for f, sts := range stores {
 		for _, st := range sts {
 			sigs := readsOf(st.Val)
+			// direct flag form: p.F = b[k]&m != 0 (e.g. inside a composite literal)
+			direct := bitOf(st.Val)
 			for _, s := range sigs {
-				addSig(out, f, s, "")
+				addSig(out, f, s, direct)
 			}
 			loaded := c.P.FieldLoadsContent(st.Val, typeQ)
 			for _, g := range loaded {
